@@ -270,3 +270,19 @@ CHECKS["C05"] = {
          "checks_quick": 3, "checks_thorough": 40, "shards_quick": 4, "shards_thorough": 16, "timeout_quick": 400, "timeout_thorough": 2400},
     ],
 }
+
+CHECKS["C13"] = {
+    "level": "fault_enumeration",
+    "technique": "property-based testing over generated membership event sequences (join, graceful leave, abrupt stop, coordinator departure, re-join under the same address) with a routing-table validity oracle (rapid)",
+    "level_text": ("Private in-process clusters (1-6 members, R 1-3, 7/13/31 partitions, fast failure detection, a light write load so that previous owners really hold data) go through 1-6 generated membership events. "
+                   "After the membership has settled (every survivor counts exactly the live members and all hold the same table) the table of every member must be valid: one live primary owner per partition, min(R,N)-1 distinct live current backup owners other than the primary, "
+                   "every other listed owner alive and still holding data, no departed member id anywhere, primaries per member <= ceil(P/N * 1.25); CLUSTER.ROUTINGTABLE and CLUSTER.MEMBERS from every member equal the member's own view, the coordinator flag sits on the oldest live member, "
+                   "and 50 keys map to the same owner on every member and for a client."),
+    "level_note": "trusted: the harness' abrupt stop (gossip shut down without leave, RESP server closed, services cancelled); settling has a time budget (inconclusive when exceeded); emptied previous owners get 8 s (40 routing pushes) to be pruned before they are reported",
+    "rule": "case = (start size, R, partitions, event list); non-trivial = >= 2 events including a leave/stop, or a coordinator change, or a re-join under the same address; distinct = distinct case hash",
+    "assumptions": ["placement relative to a routing push in flight is not controlled"],
+    "parts": [
+        {"name": "routing", "pkg": ROOT, "test": "TestVerifC13", "kind": "rapid",
+         "checks_quick": 10, "checks_thorough": 250, "shards_quick": 8, "shards_thorough": 16, "timeout_quick": 400, "timeout_thorough": 2400},
+    ],
+}
